@@ -24,6 +24,8 @@ use serde_json::{json, Value as J};
 pub const CHUNK: u64 = 64;
 pub const MAX_VIOL_PER_CLASS: u64 = 3;
 pub const MAX_SAMPLES: usize = 6;
+pub const MAX_CRASHES_PER_SHARD: u32 = 12;
+pub const MAX_CRASH_REPLAYS: usize = 12;
 
 #[derive(Clone, Copy, PartialEq, Eq, Debug)]
 pub enum Tier {
@@ -445,6 +447,7 @@ pub fn run_parent(fams: &[Family], cfg: &RunCfg, extra_args: &[String]) -> Resul
         ws.push(W { child: spawn(k, (0, 0))?, k, restarts: 0 });
     }
     let mut crashes: Vec<(u64, u64, String)> = vec![]; // (family idx, idx, signal)
+    let mut abandoned: Vec<u64> = vec![];
     let mut shard_json: Vec<J> = vec![];
     for w in ws.iter_mut() {
         loop {
@@ -468,12 +471,18 @@ pub fn run_parent(fams: &[Family], cfg: &RunCfg, extra_args: &[String]) -> Resul
             }
             crashes.push((fi, idx, sig));
             w.restarts += 1;
-            if w.restarts > 200 {
-                return Err(format!("worker {} crashed more than 200 times; giving up", w.k));
+            if w.restarts > MAX_CRASHES_PER_SHARD {
+                // the rest of this shard is not explored: reported as a cap, the crashes found so
+                // far are the verdict
+                abandoned.push(w.k);
+                break;
             }
             // partial results of the dead worker are lost except violations (jsonl sink);
             // restart after the crashing case
             w.child = spawn(w.k, (fi, idx + 1))?;
+        }
+        if abandoned.contains(&w.k) {
+            continue;
         }
         let p = cfg.workdir.join(format!("shard-{}.json", w.k));
         let txt = std::fs::read_to_string(&p).map_err(|e| format!("read {}: {e}", p.display()))?;
@@ -487,7 +496,7 @@ pub fn run_parent(fams: &[Family], cfg: &RunCfg, extra_args: &[String]) -> Resul
     let mut viol_counts: BTreeMap<String, u64> = BTreeMap::new();
     let mut notes: BTreeMap<String, u64> = BTreeMap::new();
     let mut samples: Vec<J> = vec![];
-    let mut capped = false;
+    let mut capped = !abandoned.is_empty();
     let mut chunk_digests: Vec<J> = vec![];
     for s in &shard_json {
         states += s["states"].as_u64().unwrap_or(0);
@@ -531,8 +540,18 @@ pub fn run_parent(fams: &[Family], cfg: &RunCfg, extra_args: &[String]) -> Resul
     }
     // crashes: replay each twice in a fresh process before believing it
     let mut unreproducible = vec![];
+    let mut replayed = 0;
     for (fi, idx, sig) in &crashes {
         let fam = &fams[*fi as usize];
+        replayed += 1;
+        if replayed > MAX_CRASH_REPLAYS {
+            // further crashes are listed without the double replay
+            let class = format!("crash/{}", sig);
+            *viol_counts.entry(class.clone()).or_insert(0) += 1;
+            violations.push(json!({"class": class, "family": fam.name, "idx": idx,
+                "detail": {"signal": sig, "note": "worker process died inside this case (not replayed: replay budget used by earlier crashes)"}}));
+            continue;
+        }
         let mut same = 0;
         let mut last = String::new();
         for _ in 0..2 {
@@ -603,6 +622,7 @@ pub fn run_parent(fams: &[Family], cfg: &RunCfg, extra_args: &[String]) -> Resul
         "notes": notes,
         "capped": capped,
         "crashed_cases": crashes.len(),
+        "abandoned_shards": abandoned,
         "chunk_digests": chunk_digests,
         "shards": n,
         "wall_s": t0.elapsed().as_secs_f64(),
